@@ -190,7 +190,10 @@ def run_task(task):
     # outcomes make it free up to the first failure of that bucket), raise on
     # that bucket only and let Hypothesis shrink.
     shrink_budget = task.get("shrink_s", 60)
+    shrink_t0 = time.time()
     for bname in list(col.buckets):
+      if time.time() - shrink_t0 > 2.5 * shrink_budget:
+        break          # keep the smallest case found so far for the remaining buckets
       tshrink = time.time()
       best = {"case": col.buckets[bname]["case"]}
 
